@@ -2,7 +2,7 @@ import HapVerif.Model.Pdu
 import HapVerif.Model.Crypto.Real
 
 namespace HapVerif.Drv.Pdu
-open HapVerif HapVerif.Pdu HapVerif.Crypto
+open HapVerif HapVerif.Pdu HapVerif.RealCrypto
 
 def showErr : Err → String
   | .struct => "struct" | .value => "value" | .index => "index" | .encryption => "encryption"
